@@ -5,9 +5,9 @@
    c02.enc ltsv  <LF|CRLF|CR> <ncols> <nrows> <hdr…> <cells…>
    c02.dec ltsv  <withoutNull> <hex>
    c02.enc fixed <LF|CRLF|CR> <withoutHeader> <ncols> <nrows> <hdr…> <cells…>       (automatic positions)
-   c02.encp fixed <LF|CRLF|CR> <withoutHeader> <singleLine> <npos> <pos…> <ncols> <nrows> <hdr…> <cells…>
-   c02.dec fixed <noHeader> <withoutNull> <singleLine> <npos> <pos…> <hex>          (explicit positions)
-   c02.jstr <escapeType> <hex>                                                      (JSON string escape)
+   c02.encp fixed <LF|CRLF|CR> <withoutHeader> <npos> <pos…> <ncols> <nrows> <hdr…> <cells…>
+   c02.dec fixed <noHeader> <withoutNull> <npos> <pos…> <hex>                       (explicit positions)
+   c02.nop                                                                          (law-only case)
 
    delim = code point (decimal); booleans 0/1; text = hex of UTF-8; header tokens `S<hex>`;
    cell tokens `N` | `S<hex>` (String/Datetime) | `R<hex>` (number/boolean text), fixed-length cells
@@ -16,6 +16,7 @@
 import Csvq.Model.Proto
 import Csvq.Model.Csv
 import Csvq.Model.Ltsv
+import Csvq.Model.Fixed
 namespace Csvq.Drive
 open Csvq Csvq.Proto
 
@@ -128,6 +129,57 @@ def decLtsv (args : List String) : String :=
     | _, _ => "bad-op"
   | _ => "bad-op"
 
+def parseFCell (s : String) : Option Fixed.Field :=
+  let al : Option Fixed.Align :=
+    match s.front with
+    | 'L' => some .left | 'C' => some .center | 'R' => some .right | _ => none
+  match al, parseCell (s.drop 1).toString with
+  | some a, some c => some ⟨c.text, a⟩
+  | _, _ => none
+
+def wdUtf8 (c : Char) : Nat := c.utf8Size
+
+/-- `<n> <p1> … <pn> rest…` -/
+def parsePositions (l : List String) : Option (List Nat × List String) :=
+  match l with
+  | n :: rest =>
+    match n.toNat? with
+    | some n =>
+      if rest.length < n then none
+      else (rest.take n).mapM String.toNat? |>.map fun ps => (ps, rest.drop n)
+    | none => none
+  | [] => none
+
+def encFixed (positions : Bool) (args : List String) : String :=
+  match args with
+  | lb :: wh :: rest =>
+    let pr : Option (Option (List Nat) × List String) :=
+      if positions then (parsePositions rest).map fun (ps, r) => (some ps, r) else some (none, rest)
+    match parseLB lb, parseBool wh, pr with
+    | some lb, some wh, some (ps, tbl) =>
+      match parseTable parseFCell tbl with
+      | some (h, rows) =>
+        match Fixed.encodeFixed wdUtf8 { lb := lb, withoutHeader := wh, positions := ps } ⟨h, rows⟩ with
+        | .ok cs => hexOut cs
+        | .error _ => "E"
+      | none => "bad-op"
+    | _, _, _ => "bad-op"
+  | _ => "bad-op"
+
+def decFixed (args : List String) : String :=
+  match args with
+  | nh :: wn :: rest =>
+    match parseBool nh, parseBool wn, parsePositions rest with
+    | some nh, some wn, some (ps, [hx]) =>
+      match unhexText hx with
+      | some inp =>
+        match Fixed.decodeFixed wdUtf8 { withoutHeader := nh, withoutNull := wn } ps inp with
+        | .ok t => showDTable (Fixed.detectLB wdUtf8 ps inp) t
+        | .error _ => "E"
+      | none => "bad-op"
+    | _, _, _ => "bad-op"
+  | _ => "bad-op"
+
 end C02
 
 def c02 (cmd : String) (args : List String) : String :=
@@ -136,6 +188,9 @@ def c02 (cmd : String) (args : List String) : String :=
   | "dec", "csv" :: rest => C02.decCsv rest
   | "enc", "ltsv" :: rest => C02.encLtsv rest
   | "dec", "ltsv" :: rest => C02.decLtsv rest
+  | "enc", "fixed" :: rest => C02.encFixed false rest
+  | "encp", "fixed" :: rest => C02.encFixed true rest
+  | "dec", "fixed" :: rest => C02.decFixed rest
   | "nop", [] => "ok"     -- a case whose law is checked on the implementation alone
   | _, _ => "bad-op"
 
